@@ -495,23 +495,36 @@ def suite_flow(v, parts=('bb', 'crc')):
         die('build of the wrapped test programs failed')
     out = outdir(v.pid)
     base = os.path.join(out, 'suite-trace')
-    for suffix in ('.bb', '.crc'):
+    for suffix in ('.bb', '.crc', '.vi'):
         if os.path.exists(base + suffix):
             os.remove(base + suffix)
     progs = sorted(p for p in glob.glob(os.path.join(BUILD, 'suite', 't-*')) if not p.endswith('.d'))
     tap_ok = 0
     for p in progs:
-        env = dict(os.environ, UFW_SUITE_TRACE=base, ASAN_OPTIONS='detect_leaks=0')
+        # (each program records into files of its own; only complete lines go on - a program that dies under the sanitizer is
+        # reported as such below and must not leave half a line in front of the next program's record)
+        own = base + '-' + os.path.basename(p)
+        env = dict(os.environ, UFW_SUITE_TRACE=own, ASAN_OPTIONS='detect_leaks=0')
         try:
             r = subprocess.run([p], env=env, stdout=subprocess.PIPE, stderr=subprocess.STDOUT, text=True, errors='replace', timeout=1800)
         except subprocess.TimeoutExpired:
             die('test program %s did not finish' % p)
+        for suffix in ('.bb', '.crc', '.vi'):
+            with open(base + suffix, 'a') as dst:
+                if os.path.exists(own + suffix):
+                    for ln in open(own + suffix, errors='replace'):
+                        try:
+                            json.loads(ln)
+                        except ValueError:
+                            continue
+                        dst.write(ln if ln.endswith('\n') else ln + '\n')
+                    os.remove(own + suffix)
         bad = [ln for ln in r.stdout.split('\n') if ln.startswith('not ok')]
         tap_ok += sum(1 for ln in r.stdout.split('\n') if ln.startswith('ok'))
         if r.returncode != 0 or bad:
             v.problem('SUITE/' + os.path.basename(p), ['#suite ' + os.path.basename(p)],
                       'test program fails when linked against the recording wrappers: rc=%d %s' % (r.returncode, bad[:2]))
-    specs = dict(bb=('ByteBufferSuite.tla', 'ByteBufferSuite.cfg'), crc=('Crc16Trace.tla', 'Crc16Trace.cfg'))
+    specs = dict(bb=('ByteBufferSuite.tla', 'ByteBufferSuite.cfg'), crc=('Crc16Trace.tla', 'Crc16Trace.cfg'), vi=('VarintTrace.tla', 'VarintTrace.cfg'))
     counts = {}
     for part in parts:
         mod, cfg = specs[part]
